@@ -2,7 +2,9 @@
 //
 // stdin: one scenario per line
 //   queue elem=<int|tag> P=<1..8> C=<1..8> max=<0..> n=<per producer> mode=<drain|sdmid|sdidle> try=<0|1> pl=<0..2> ps=<seed>
-//   pool  N=<1..32> max=<0..> S=<submitters> n=<tasks per submitter> mode=<get-first|destroy-first> pl=<0..2> ps=<seed>
+//   pool  N=<1..32> max=<0..> S=<submitters> n=<tasks per submitter> mode=<get-first|destroy-first> mix=<task mix> pl=<0..2> ps=<seed>
+//         (task kinds, by id and mix: value / void / throws std::runtime_error / a class derived from std::exception /
+//          int / a struct NOT derived from std::exception / std::string — see run_pool)
 // stdout per scenario:
 //   BEGIN <scenario>
 //   E <tid> <tag> <qid> <arg> <payload>      lock-granular event trace (see below)
@@ -18,7 +20,9 @@
 // shutdown-return, task-run, future-get, dtor-start, dtor-done); these are ordered per
 // thread only.  After logging, the hook perturbs the schedule (seeded yield / 0–200 µs
 // sleep, also inside critical sections).
-// A watchdog (20 s per scenario) prints the trace prefix and exits with code 3.
+// A watchdog (20 s per scenario) prints the trace prefix and exits with code 3; a
+// std::terminate() anywhere in the process (e.g. an exception leaving a pool worker's thread
+// function) prints the trace prefix and `MON no-terminate FAIL …` and exits with code 4.
 #include "common.hpp"
 
 #include <osmium/thread/pool.hpp>
@@ -26,15 +30,18 @@
 
 #include <atomic>
 #include <chrono>
+#include <cxxabi.h>
 #include <cstdlib>
 #include <cstring>
 #include <dirent.h>
+#include <exception>
 #include <future>
 #include <map>
 #include <memory>
 #include <mutex>
 #include <stdexcept>
 #include <thread>
+#include <typeinfo>
 #include <unistd.h>
 
 namespace {
@@ -444,16 +451,119 @@ void run_queue(const std::string& line, const std::map<std::string, std::string>
 
 // ---------------------------------------------------------------- pool scenarios
 
+// Task kinds (what the submitted function does), outcome code = index in this list:
+//   0 v  returns a value                         future<long long>  model outcome v.<3id+1>
+//   1 u  returns void                            future<void>       v.0
+//   2 r  throws std::runtime_error("t<id>")                         s.0.<id>
+//   3 c  throws TaskError{id} (derived from std::exception)         s.1.<id>
+//   4 i  throws int{id}                                             o.0.<id>
+//   5 f  throws Foreign{id,"foreign"} (NOT derived from std::exception) o.1.<id>
+//   6 s  throws std::string("s<id>")                                o.2.<id>
+// Observed-only codes (never expected): 7 broken promise / future_error, 8 unknown exception
+// type, 9 right type with a damaged payload.
+constexpr int KIND_COUNT = 7;
+const char KIND_LETTER[] = "vurcifs";
+
 struct TaskError : std::exception {
     long long code;
     explicit TaskError(long long c) : code(c) {}
     const char* what() const noexcept override { return "task-error"; }
 };
 
-// task kind from its id: bit0 = throws, bit1 = slow
-inline bool task_throws(long long id, uint64_t mix) { return ((static_cast<uint64_t>(id) * 2654435761ULL + mix) >> 7) % 4 == 0; }
+struct Foreign { // what a callback into some other library might throw
+    long long code;
+    std::string tag;
+};
+
+// kind of task `id`: any 7 consecutive ids contain every kind once (stride coprime to 7), the
+// kind of the first task and the order vary with mix
+inline int task_kind(long long id, uint64_t mix) {
+    static const int stride[] = {1, 2, 3, 4, 5, 6};
+    return static_cast<int>((static_cast<uint64_t>(id) * static_cast<uint64_t>(stride[(mix / 7) % 6]) + mix) % KIND_COUNT);
+}
 inline bool task_slow(long long id, uint64_t mix) { return ((static_cast<uint64_t>(id) * 40503ULL + mix) >> 5) % 3 == 0; }
 inline long long task_value(long long id) { return id * 3 + 1; }
+inline long long task_payload(long long id, int kind) { return kind == 0 ? task_value(id) : kind == 1 ? 0 : id; }
+
+std::string outcome_text(int code, long long payload) {
+    switch (code) {
+        case 0: case 1: return "v." + std::to_string(payload);
+        case 2: return "s.0." + std::to_string(payload);
+        case 3: return "s.1." + std::to_string(payload);
+        case 4: return "o.0." + std::to_string(payload);
+        case 5: return "o.1." + std::to_string(payload);
+        case 6: return "o.2." + std::to_string(payload);
+        case 7: return "future-error";
+        case 8: return "unknown-exception-type";
+        default: return "damaged-payload";
+    }
+}
+
+thread_local long long t_running_task = -1; // id of the task this thread is executing
+
+// the body of every task: log, count, maybe sleep, then end as the kind says
+void task_body(int id, int kind, uint64_t mix, std::vector<std::atomic<int>>& run_count) {
+    log_event("task-run", nullptr, 0, id);
+    t_running_task = id;
+    ++run_count[static_cast<std::size_t>(id)];
+    if (task_slow(id, mix)) {
+        std::this_thread::sleep_for(std::chrono::microseconds(100 + (id % 5) * 100));
+    }
+    switch (kind) {
+        case 2: throw std::runtime_error{"t" + std::to_string(id)};
+        case 3: throw TaskError{id};
+        case 4: throw static_cast<int>(id);
+        case 5: throw Foreign{id, "foreign"};
+        case 6: throw std::string{"s" + std::to_string(id)};
+        default: break;
+    }
+    t_running_task = -1;
+}
+
+// std::terminate() somewhere in the process (an exception left a thread function, a joinable
+// thread was destroyed, …): report it as a monitor failure of the current scenario instead of
+// dying silently with SIGABRT.
+[[noreturn]] void terminate_handler() {
+    static std::atomic<bool> once{false};
+    if (once.exchange(true)) {
+        std::this_thread::sleep_for(std::chrono::seconds(5)); // another thread is reporting
+        _exit(4);
+    }
+    std::string type = "none";
+    std::string what;
+    if (std::exception_ptr p = std::current_exception()) {
+        if (const std::type_info* ti = abi::__cxa_current_exception_type()) {
+            int status = 0;
+            char* dn = abi::__cxa_demangle(ti->name(), nullptr, nullptr, &status);
+            type = (status == 0 && dn) ? dn : ti->name();
+            std::free(dn);
+        }
+        try {
+            std::rethrow_exception(p);
+        } catch (const std::exception& e) {
+            what = e.what();
+        } catch (...) {
+        }
+    }
+    for (auto& ch : type) {
+        if (ch == ' ') {
+            ch = '_';
+        }
+    }
+    for (auto& ch : what) {
+        if (ch == ' ' || ch == '\n') {
+            ch = '_';
+        }
+    }
+    const int tid = (t_ctx.epoch == g_epoch.load()) ? t_ctx.tid : -1;
+    print_trace();
+    std::printf("MON no-terminate FAIL std::terminate()-called-in-thread=%d,while-running-task=%lld,active-exception-type=%s,what=%s"
+                " (an exception thrown by a task did not arrive in its future but left the worker's thread function; all queued tasks are lost with the process)\n",
+                tid, t_running_task, type.c_str(), what.empty() ? "-" : what.c_str());
+    std::printf("END terminate\n");
+    std::fflush(stdout);
+    _exit(4);
+}
 
 void run_pool(const std::string& line, const std::map<std::string, std::string>& kv) {
     const int N = static_cast<int>(geti(kv, "N", 1));
@@ -469,25 +579,64 @@ void run_pool(const std::string& line, const std::map<std::string, std::string>&
     for (auto& r : run_count) {
         r = 0;
     }
+    // kind 1 tasks are void functions (std::future<void>), all others return long long
     std::vector<std::future<long long>> futures(static_cast<std::size_t>(total) + 1);
+    std::vector<std::future<void>> vfutures(static_cast<std::size_t>(total) + 1);
     std::vector<std::string> fut_result(static_cast<std::size_t>(total) + 1);
     const int threads_before = count_workers();
     int threads_during = 0;
+    int threads_before_dtor = 0;
     bool all_ready_after_dtor = true;
 
+    // future.get(): the value, or the SAME exception (dynamic type and payload) the task threw
     auto get_future = [&](int id) {
-        std::string r;
+        const int kind = task_kind(id, mix);
+        int code = 8;
+        long long payload = 0;
         try {
-            const long long v = futures[static_cast<std::size_t>(id)].get();
-            r = "v." + std::to_string(v);
-            log_event("future-get", nullptr, 0, id * 1000000LL + v);
+            if (kind == 1) {
+                vfutures[static_cast<std::size_t>(id)].get();
+                code = 1;
+            } else {
+                payload = futures[static_cast<std::size_t>(id)].get();
+                code = 0;
+            }
         } catch (const TaskError& e) {
-            r = "e." + std::to_string(e.code);
-            log_event("future-get", nullptr, 1, id * 1000000LL + e.code);
+            code = typeid(e) == typeid(TaskError) && !std::strcmp(e.what(), "task-error") ? 3 : 9;
+            payload = e.code;
+        } catch (const std::future_error&) {
+            code = 7;
+        } catch (const std::runtime_error& e) {
+            const std::string w = e.what();
+            const bool ok = typeid(e) == typeid(std::runtime_error) && w.size() > 1 && w[0] == 't' &&
+                            w.find_first_not_of("0123456789", 1) == std::string::npos;
+            code = ok ? 2 : 9;
+            payload = ok ? std::atoll(w.c_str() + 1) : 0;
+        } catch (const std::exception&) {
+            code = 8;
+        } catch (int v) {
+            code = 4;
+            payload = v;
+        } catch (const Foreign& f) {
+            code = f.tag == "foreign" ? 5 : 9;
+            payload = f.code;
+        } catch (const std::string& str) {
+            const bool ok = str.size() > 1 && str[0] == 's' && str.find_first_not_of("0123456789", 1) == std::string::npos;
+            code = ok ? 6 : 9;
+            payload = ok ? std::atoll(str.c_str() + 1) : 0;
         } catch (...) {
-            r = "other";
+            code = 8;
         }
-        fut_result[static_cast<std::size_t>(id)] = r;
+        fut_result[static_cast<std::size_t>(id)] = outcome_text(code, payload);
+        if (code <= 6 && payload >= 0 && payload < 1000000) {
+            log_event("future-get", nullptr, static_cast<std::size_t>(code), id * 1000000LL + payload);
+        }
+    };
+
+    auto future_ready = [&](int id) {
+        return task_kind(id, mix) == 1
+                   ? vfutures[static_cast<std::size_t>(id)].wait_for(std::chrono::seconds(0)) == std::future_status::ready
+                   : futures[static_cast<std::size_t>(id)].wait_for(std::chrono::seconds(0)) == std::future_status::ready;
     };
 
     {
@@ -499,19 +648,19 @@ void run_pool(const std::string& line, const std::map<std::string, std::string>&
                 set_tid(1 + s);
                 for (int i = 0; i < n; ++i) {
                     const int id = s * n + i + 1;
+                    const int kind = task_kind(id, mix);
                     t_ctx.payload = id;
-                    log_event("submit-spec", nullptr, task_throws(id, mix) ? 1 : 0, id * 1000000LL + (task_throws(id, mix) ? id : task_value(id)));
-                    futures[static_cast<std::size_t>(id)] = pool->submit([id, mix, &run_count]() -> long long {
-                        log_event("task-run", nullptr, 0, id);
-                        ++run_count[static_cast<std::size_t>(id)];
-                        if (task_slow(id, mix)) {
-                            std::this_thread::sleep_for(std::chrono::microseconds(100 + (id % 5) * 100));
-                        }
-                        if (task_throws(id, mix)) {
-                            throw TaskError{id};
-                        }
-                        return task_value(id);
-                    });
+                    log_event("submit-spec", nullptr, static_cast<std::size_t>(kind), id * 1000000LL + task_payload(id, kind));
+                    if (kind == 1) {
+                        vfutures[static_cast<std::size_t>(id)] = pool->submit([id, kind, mix, &run_count]() -> void {
+                            task_body(id, kind, mix, run_count);
+                        });
+                    } else {
+                        futures[static_cast<std::size_t>(id)] = pool->submit([id, kind, mix, &run_count]() -> long long {
+                            task_body(id, kind, mix, run_count);
+                            return task_value(id);
+                        });
+                    }
                     log_event("push-return", nullptr, 0, id);
                     t_ctx.payload = -1;
                 }
@@ -525,6 +674,8 @@ void run_pool(const std::string& line, const std::map<std::string, std::string>&
         for (auto& t : submitters) {
             t.join();
         }
+        // a task that threw must not have cost a worker: workers only leave through stop tasks
+        threads_before_dtor = count_workers();
         // destructor: pushes N stop tasks, joins all workers; queued tasks must still run
         log_event("dtor-start", nullptr, 0, -1);
         t_ctx.stop_mode = true;
@@ -535,7 +686,7 @@ void run_pool(const std::string& line, const std::map<std::string, std::string>&
     const int threads_after = wait_for_workers(0, 2000);
     if (mode != "get-first") {
         for (int id = 1; id <= total; ++id) {
-            if (futures[static_cast<std::size_t>(id)].wait_for(std::chrono::seconds(0)) != std::future_status::ready) {
+            if (!future_ready(id)) {
                 all_ready_after_dtor = false;
                 fut_result[static_cast<std::size_t>(id)] = "not-ready";
             } else {
@@ -550,24 +701,30 @@ void run_pool(const std::string& line, const std::map<std::string, std::string>&
     for (int id = 1; id <= total; ++id) {
         if (run_count[static_cast<std::size_t>(id)] != 1 && once_ok) {
             once_ok = false;
-            d = "task=" + std::to_string(id) + ",runs=" + std::to_string(run_count[static_cast<std::size_t>(id)].load());
+            d = "task=" + std::to_string(id) + ",kind=" + KIND_LETTER[task_kind(id, mix)] + ",runs=" + std::to_string(run_count[static_cast<std::size_t>(id)].load());
         }
     }
     std::printf("MON task-ran-exactly-once %s %s\n", once_ok ? "ok" : "FAIL", d.c_str());
     bool fut_ok = true;
     d = "-";
     for (int id = 1; id <= total; ++id) {
-        const std::string want = task_throws(id, mix) ? "e." + std::to_string(id) : "v." + std::to_string(task_value(id));
+        const int kind = task_kind(id, mix);
+        const std::string want = outcome_text(kind, task_payload(id, kind));
         if (fut_result[static_cast<std::size_t>(id)] != want && fut_ok) {
             fut_ok = false;
-            d = "task=" + std::to_string(id) + ",got=" + fut_result[static_cast<std::size_t>(id)] + ",want=" + want;
+            d = "task=" + std::to_string(id) + ",kind=" + KIND_LETTER[kind] + ",got=" + fut_result[static_cast<std::size_t>(id)] + ",want=" + want;
         }
     }
     std::printf("MON future-delivers-outcome %s %s\n", fut_ok ? "ok" : "FAIL", d.c_str());
     std::printf("MON queued-tasks-done-when-destructor-returns %s -\n", all_ready_after_dtor ? "ok" : "FAIL");
+    std::printf("MON worker-survives-task-exception %s workers-before-destructor=%d,N=%d\n", threads_before_dtor == N ? "ok" : "FAIL", threads_before_dtor, N);
     const bool joined = threads_before == 0 && threads_after == 0 && threads_during == N;
     std::printf("MON destructor-joined-all-workers %s before=%d,during=%d,after=%d,N=%d\n", joined ? "ok" : "FAIL", threads_before, threads_during, threads_after, N);
-    std::printf("OBS total=%d\n", total);
+    std::string kinds;
+    for (int id = 1; id <= total; ++id) {
+        kinds += KIND_LETTER[task_kind(id, mix)];
+    }
+    std::printf("OBS total=%d kinds=%s\n", total, kinds.c_str());
     std::printf("END ok\n");
     std::fflush(stdout);
 }
@@ -593,6 +750,7 @@ extern "C" void osmium_verif_point(const char* tag, const void* obj, std::size_t
 int main() {
     unsetenv("OSMIUM_MAX_WORK_QUEUE_SIZE");
     unsetenv("OSMIUM_POOL_THREADS");
+    std::set_terminate(terminate_handler);
     std::thread{watchdog_main}.detach();
     std::string line;
     while (std::getline(std::cin, line)) {
